@@ -29,6 +29,10 @@ Local Open Scope nat_scope.
 #[local] Arguments str_eqb : simpl never.
 #[local] Arguments existsb : simpl never.
 #[local] Arguments assoc_get : simpl never.
+#[local] Arguments find_def : simpl never.
+#[local] Arguments opt_stmts : simpl never.
+#[local] Arguments drop_pass : simpl never.
+#[local] Arguments freeze_env : simpl never.
 #[local] Arguments mapM : simpl never.
 #[local] Arguments mapR : simpl never.
 #[local] Arguments rbind : simpl never.
@@ -46,30 +50,30 @@ Local Open Scope nat_scope.
 #[local] Arguments tl : simpl never.
 
 Section Frame2.
-Variables (ca cd : nat -> mode) (pf ls : nat -> bool) (cs : list value).
+Variables (ca cd : nat -> mode) (pf ls : nat -> bool) (cs : list value) (defs : list (str * prog)).
 Notation vok := (C17_Inv.vok ca cd pf).
 Notation env_ok := (C17_Inv.env_ok ca cd pf).
-Notation Inv := (C17_Inv.Inv ca cd pf ls cs).
+Notation Inv := (C17_Inv.Inv ca cd pf ls cs defs).
 Notation frame := (C17_Inv.frame ca cd ls).
-Notation good := (C17_Inv.good ca cd pf ls cs).
+Notation good := (C17_Inv.good ca cd pf ls cs defs).
 Notation sok_e := (C17_Inv.sok_e ca cd pf cs).
 Notation sok_args := (C17_Inv.sok_args ca cd pf cs).
 Notation sok_p := (C17_Inv.sok_p ca cd pf cs).
 Notation sok_s := (C17_Inv.sok_s ca cd pf cs).
 Notation dok := (C17_Inv.dok ca cd pf cs).
 Notation sres_ok := (C17_Ops.sres_ok ca cd pf).
-Notation E_spec := (C17_Ops.E_spec ca cd pf ls cs).
-Notation V_spec := (C17_Ops.V_spec ca cd pf ls cs).
-Notation C_spec := (C17_Ops.C_spec ca cd pf ls cs).
-Notation R_spec := (C17_Ops.R_spec ca cd pf ls cs).
-Notation B_spec := (C17_Ops.B_spec ca cd pf ls cs).
-Notation S_spec := (C17_Ops.S_spec ca cd pf ls cs).
+Notation E_spec := (C17_Ops.E_spec ca cd pf ls cs defs).
+Notation V_spec := (C17_Ops.V_spec ca cd pf ls cs defs).
+Notation C_spec := (C17_Ops.C_spec ca cd pf ls cs defs).
+Notation R_spec := (C17_Ops.R_spec ca cd pf ls cs defs).
+Notation B_spec := (C17_Ops.B_spec ca cd pf ls cs defs).
+Notation S_spec := (C17_Ops.S_spec ca cd pf ls cs defs).
 
 Lemma restore_good : forall st st4, Inv st -> Inv st4 ->
   Inv (set_locals (locals st) (set_cur (cur st) st4)) /\ frame st4 (set_locals (locals st) (set_cur (cur st) st4)).
 Proof.
   intros st st4 HI I4. split.
-  - apply set_locals_inv; [|apply (i_loc _ _ _ _ _ _ HI)]. apply set_cur_inv; auto. apply (i_cur _ _ _ _ _ _ HI).
+  - apply set_locals_inv; [|apply (i_loc _ _ _ _ _ _ _ HI)]. apply set_cur_inv; auto. apply (i_cur _ _ _ _ _ _ _ HI).
   - eapply frame_trans; [apply set_cur_frame|apply set_locals_frame].
 Qed.
 
@@ -95,7 +99,7 @@ Proof.
   set (fd := nth id (funcs st1) _) in *.
   destruct (Nat.lt_ge_cases id (length (funcs st1))) as [Hlt|Hge].
   - assert (Hpf : pf id = false). { unfold C17_Inv.vok, C17_Inv.vokb in Hid. destruct (pf id); [discriminate|reflexivity]. }
-    pose proof (i_fn _ _ _ _ _ _ HI id Hpf Hlt) as Hfok. fold fd in Hfok. unfold fokb in Hfok.
+    pose proof (i_fn _ _ _ _ _ _ _ HI id Hpf Hlt) as Hfok. fold fd in Hfok. unfold fokb in Hfok.
     apply andb_prop in Hfok. destruct Hfok as [Hfok Hls]. apply andb_prop in Hfok. destruct Hfok as [Hargs Hbody].
     match goal with |- post _ (rbind (?go _ _ _) _) =>
       assert (Hgo : forall l acc st0, forallb dok l = true -> env_ok acc -> Inv st0 -> post (good st0 env_ok) (go l acc st0)) end.
@@ -104,7 +108,7 @@ Proof.
       - cbn [forallb] in Hl. apply andb_prop in Hl. destruct Hl as [Hd Hr]. unfold C17_Inv.dok in Hd. cbn [snd] in Hd.
         destruct (env_get a acc); [apply IH; auto|]. destruct df as [|v|e]; [exact I| |].
         + apply IH; auto. apply env_set_ok; auto.
-        + eapply good_bind; [apply (E_plain ca cd pf ls cs _ _ _ IHE); auto|]. intros v st' I' F' Hv. cbv beta match. apply IH; auto. apply env_set_ok; auto. }
+        + eapply good_bind; [apply (E_plain ca cd pf ls cs defs _ _ _ IHE); auto|]. intros v st' I' F' Hv. cbv beta match. apply IH; auto. apply env_set_ok; auto. }
     eapply good_bind; [apply Hgo; auto|]. intros full st2 I2 F2 Hfull. cbv beta match.
     assert (I3 : Inv (set_locals [full] (set_cur (f_scope fd) st2))).
     { apply set_locals_inv; [apply set_cur_inv; auto|]. constructor; [exact Hfull|constructor]. }
@@ -141,9 +145,9 @@ Proof.
     { induction l as [|[[k|] e] r IH]; intros i acc st0 Hl Hacc I0; simpl.
       - apply good_ret; auto.
       - apply sok_args_cons in Hl. destruct Hl as [He Hr]. destruct (existsb _ _); [|exact I].
-        eapply good_bind; [apply (E_plain ca cd pf ls cs _ _ _ IHE); auto|]. intros v st' I' F' Hv. cbv beta match. apply IH; auto. apply env_set_ok; auto.
+        eapply good_bind; [apply (E_plain ca cd pf ls cs defs _ _ _ IHE); auto|]. intros v st' I' F' Hv. cbv beta match. apply IH; auto. apply env_set_ok; auto.
       - apply sok_args_cons in Hl. destruct Hl as [He Hr]. destruct (Nat.leb _ _); [exact I|].
-        eapply good_bind; [apply (E_plain ca cd pf ls cs _ _ _ IHE); auto|]. intros v st' I' F' Hv. cbv beta match. apply IH; auto. apply env_set_ok; auto. }
+        eapply good_bind; [apply (E_plain ca cd pf ls cs defs _ _ _ IHE); auto|]. intros v st' I' F' Hv. cbv beta match. apply IH; auto. apply env_set_ok; auto. }
     eapply good_bind; [apply Hgo; auto; constructor|]. intros bound st1 I1 F1 Hb. cbv beta match. apply IHR; auto.
   - (* a builtin *)
     destruct (native_sig n) as [[sg varargs]|] eqn:Esg.
@@ -158,21 +162,21 @@ Proof.
         - apply sok_args_cons in Hl. destruct Hl as [He Hr].
           match goal with |- post _ (match ?x with _ => _ end) => destruct x as [j|] end; [|exact I].
           specialize (Hnth j). destruct (nth j sg ([], 0%N, None)) as [[a t] def]. cbn [snd] in Hnth.
-          eapply good_bind; [apply (E_plain ca cd pf ls cs _ _ _ IHE); auto|]. intros v st' I' F' Hv. cbv beta match.
+          eapply good_bind; [apply (E_plain ca cd pf ls cs defs _ _ _ IHE); auto|]. intros v st' I' F' Hv. cbv beta match.
           apply post_bind_pure. intros v' Hv'. apply IH; auto. apply Forall_list_set; auto.
           intros w Hw. injection Hw as <-. eapply validate_ok; eauto.
         - apply sok_args_cons in Hl. destruct Hl as [He Hr]. destruct (Nat.leb _ _).
           + destruct varargs; [|exact I].
-            eapply good_bind; [apply (E_plain ca cd pf ls cs _ _ _ IHE); auto|]. intros v st' I' F' Hv. cbv beta match. apply IH; auto.
+            eapply good_bind; [apply (E_plain ca cd pf ls cs defs _ _ _ IHE); auto|]. intros v st' I' F' Hv. cbv beta match. apply IH; auto.
             apply Forall_app. split; auto.
           + specialize (Hnth i). destruct (nth i sg ([], 0%N, None)) as [[a t] def]. cbn [snd] in Hnth.
-            eapply good_bind; [apply (E_plain ca cd pf ls cs _ _ _ IHE); auto|]. intros v st' I' F' Hv. cbv beta match.
+            eapply good_bind; [apply (E_plain ca cd pf ls cs defs _ _ _ IHE); auto|]. intros v st' I' F' Hv. cbv beta match.
             apply post_bind_pure. intros v' Hv'. apply IH; auto. apply Forall_list_set; auto.
             intros w Hw. injection Hw as <-. eapply validate_ok; eauto. }
       eapply good_bind.
       { apply Hgo; auto. apply Forall_forall. intros o Hin. apply in_map_iff in Hin. destruct Hin as (x & <- & _). intros v Hv. discriminate Hv. }
       intros [filled extra] st1 I1 F1 [Hfi Hex]. cbn [fst snd] in Hfi, Hex. cbv beta match.
-      apply post_bind_pure. intros vals Hvals. apply (native_good ca cd pf ls cs); auto. apply Forall_app. split; auto.
+      apply post_bind_pure. intros vals Hvals. apply (native_good ca cd pf ls cs defs); auto. apply Forall_app. split; auto.
       eapply mapR_Forall; [|exact Hvals]. intros [o [[a t] def]] y Hin Hy. cbn [fst snd] in Hy.
       destruct o as [v|].
       * apply Ok_inj in Hy. subst y. apply in_combine_l in Hin. rewrite Forall_forall in Hfi. apply (Hfi _ Hin). reflexivity.
@@ -185,7 +189,7 @@ Proof.
       { induction l as [|[k e] r IH]; intros ts st0 Hl I0; simpl.
         - apply good_ret; auto.
         - apply sok_args_cons in Hl. destruct Hl as [He Hr]. destruct ts as [|t tr]; [apply good_ret; auto|].
-          eapply good_bind; [apply (E_plain ca cd pf ls cs _ _ _ IHE); auto|]. intros v st' I' F' Hv. cbv beta match.
+          eapply good_bind; [apply (E_plain ca cd pf ls cs defs _ _ _ IHE); auto|]. intros v st' I' F' Hv. cbv beta match.
           apply post_bind_pure. intros v' Hv'.
           eapply good_bind; [apply IH; auto|]. intros vs st'' I2 F2 Hvs. cbv beta match. apply good_ret; auto.
           constructor; auto. eapply validate_ok; eauto. intros dv Hd. discriminate Hd. }
@@ -194,39 +198,39 @@ Proof.
       pose proof (nth_args_ok ca cd pf vals 0 Hvals) as A0. pose proof (nth_args_ok ca cd pf vals 1 Hvals) as A1.
       pose proof (nth_args_ok ca cd pf vals 2 Hvals) as A2.
       destruct (nth 0 vals VNone) as [ | | | | | | | | | | fid | ]; try exact I.
-      apply post_bind_pure. intros l Hl. pose proof (strict_list_ok ca cd pf ls cs _ _ _ I1 A1 Hl) as Hlv.
+      apply post_bind_pure. intros l Hl. pose proof (strict_list_ok ca cd pf ls cs defs _ _ _ I1 A1 Hl) as Hlv.
       assert (Hcall : forall xs st0, Forall vok xs -> Inv st0 ->
                 post (good st0 vok)
                   (if Nat.ltb (length (f_args (nth fid (funcs st0) (Func [] [] [] 0)))) (length xs) then Err EType
-                   else run_func Asp [] f fid (combine (map (@fst _ _) (f_args (nth fid (funcs st0) (Func [] [] [] 0)))) xs) st0)).
+                   else run_func Asp defs f fid (combine (map (@fst _ _) (f_args (nth fid (funcs st0) (Func [] [] [] 0)))) xs) st0)).
       { intros xs st0 Hxs I0. destruct (Nat.ltb _ _); [exact I|]. apply IHR; auto. apply combine_env_ok; auto. }
       destruct (str_eqb n (s "map")).
       { eapply good_bind.
-        - apply (mapM_good ca cd pf ls cs vok); [exact I1|]. intros x Hin st0 I0. apply Hcall; auto.
+        - apply (mapM_good ca cd pf ls cs defs vok); [exact I1|]. intros x Hin st0 I0. apply Hcall; auto.
           constructor; [|constructor]. rewrite Forall_forall in Hlv. auto.
-        - intros out st2 I2 F2 Hout. cbv beta match. apply (new_list_good ca cd pf ls cs); auto. }
+        - intros out st2 I2 F2 Hout. cbv beta match. apply (new_list_good ca cd pf ls cs defs); auto. }
       destruct (str_eqb n (s "filter")).
-      { eapply (good_bind ca cd pf ls cs (Forall (fun p : bool * value => vok (snd p)))).
-        - apply (mapM_good ca cd pf ls cs (fun p : bool * value => vok (snd p))); [exact I1|]. intros x Hin st0 I0.
+      { eapply (good_bind ca cd pf ls cs defs (Forall (fun p : bool * value => vok (snd p)))).
+        - apply (mapM_good ca cd pf ls cs defs (fun p : bool * value => vok (snd p))); [exact I1|]. intros x Hin st0 I0.
           assert (Hx : vok x). { rewrite Forall_forall in Hlv. auto. }
           eapply good_bind; [apply Hcall; auto|]. intros r st' I' F' Hr. cbv beta match. apply good_ret; auto.
         - intros keep st2 I2 F2 Hkeep. cbv beta match.
           assert (Hout : Forall vok (map (@snd _ _) (filter (@fst _ _) keep))).
           { apply Forall_forall. intros x Hin. apply in_map_iff in Hin. destruct Hin as (p & <- & Hp). apply filter_In in Hp.
             rewrite Forall_forall in Hkeep. apply Hkeep. tauto. }
-          destruct (map (@snd _ _) (filter (@fst _ _) keep)) as [|o1 orest] eqn:Eout; [apply (good_pure ca cd pf ls cs); auto; reflexivity|].
+          destruct (map (@snd _ _) (filter (@fst _ _) keep)) as [|o1 orest] eqn:Eout; [apply (good_pure ca cd pf ls cs defs); auto; reflexivity|].
           match goal with |- post _ (if ?c then _ else _) => destruct c end; [exact I|].
           match goal with |- post _ (Ok (VList {| s_arr := _; s_off := _; s_len := _; s_cap := Nat.max ?c _ |}, _)) =>
-            pose proof (alloc_list_good ca cd pf ls cs (o1 :: orest) c st2 I2 Hout) as Ha end.
+            pose proof (alloc_list_good ca cd pf ls cs defs (o1 :: orest) c st2 I2 Hout) as Ha end.
           unfold alloc_list in Ha. destruct Ha as (I3 & F3 & V3 & _). cbn [post]. unfold C17_Inv.good. auto. }
       (* reduce *)
-      destruct l as [|x r]; [apply (good_pure ca cd pf ls cs); auto|].
+      destruct l as [|x r]; [apply (good_pure ca cd pf ls cs defs); auto|].
       inversion Hlv as [|? ? Hx Hr]; subst.
       match goal with |- post _ (let '(acc0, rest) := ?p in ?go rest acc0 st1) =>
         assert (Hgo2 : forall l0 acc st0, Forall vok l0 -> vok acc -> Inv st0 -> post (good st0 vok) (go l0 acc st0));
         [|assert (Hp : vok (fst p) /\ Forall vok (snd p)); [|destruct p as [acc0 rest]; cbn [fst snd] in Hp; apply Hgo2; tauto]] end.
       { induction l0 as [|y r0 IH]; intros acc st0 Hl0 Hacc I0; simpl.
-        - apply (good_pure ca cd pf ls cs); auto.
+        - apply (good_pure ca cd pf ls cs defs); auto.
         - inversion Hl0 as [|? ? Hy Hr0]; subst.
           eapply good_bind; [apply Hcall; auto|]. intros acc' st' I' F' Hacc'. cbv beta match. apply IH; auto. }
       { destruct (nth 2 vals VNone); cbn [fst snd]; auto. }
